@@ -32,6 +32,12 @@ theorem inv_of_scans {m : M α} (h : Scans E m) : H (TreeInvP E) m (fun _ => Tre
 
 attribute [local irreducible] H
 
+theorem leaf_dollar (o : Opts) :
+    isLeafType (if o.m then NT.eol else if o.re2 ∨ o.e then NT.end_ else NT.endZ) = true := by
+  split
+  · rfl
+  · split <;> rfl
+
 theorem inv_leafUnit_after {r : RNode} (hr : Leaf r) (b : Bool) :
     H TreeInv (do setUnit (some r); stepAfter E b) (fun _ => TreeInv) :=
   H_bindI (inv_setUnit (shp_leaf hr)) (fun _ => inv_stepAfter E b)
@@ -49,12 +55,13 @@ theorem inv_stepOpen (b : Bool) : H (TreeInvP E) (stepOpen E b) (fun _ => TreeIn
     · intro r
       apply H_pre
       intro hr
-      apply H_bindI
-      · cases r with
-        | none => exact inv_popKeepOptions
-        | some g => exact H_bindI inv_pushGroup (fun _ => inv_startGroup (hr g rfl))
-      · intro _
-        exact H_pureI
+      cases r with
+      | none =>
+        dsimp only
+        exact H_bindI inv_popKeepOptions (fun _ => H_pureI)
+      | some g =>
+        dsimp only
+        exact H_bindI inv_pushGroup (fun _ => H_bindI (inv_startGroup (hr g rfl)) (fun _ => H_pureI))
 
 theorem inv_stepClose (b : Bool) : H TreeInv (stepClose E b) (fun _ => TreeInv) := by
   unfold stepClose
@@ -111,7 +118,7 @@ theorem inv_stepSwitch (o : Opts) (ch : Nat) (isQ wasPrev : Bool) :
   refine H.ite (fun _ => ?_) (fun _ => ?_)
   · exact H_weaken E (inv_leafUnit_after E (leaf_mkNode (by split <;> rfl)) _)
   refine H.ite (fun _ => ?_) (fun _ => ?_)
-  · exact H_weaken E (inv_leafUnit_after E (leaf_mkNode (by repeat' split <;> rfl)) _)
+  · exact H_weaken E (inv_leafUnit_after E (leaf_mkNode (leaf_dollar o)) _)
   refine H.ite (fun _ => ?_) (fun _ => ?_)
   · exact H_weaken E (inv_leafUnit_after E (leaf_dotNode E o) _)
   refine H.ite (fun _ => ?_) (fun _ => ?_)
@@ -176,7 +183,7 @@ theorem shp_scanRegex (n : Nat) :
   · unfold startGroup
     apply H_modify
     intro s ⟨h1, h2, h3, h4⟩
-    refine ⟨⟨h1, h2, by dsimp only; rw [h3, h4]⟩, open3_start _ ⟨rfl, rfl⟩, ?_, ?_⟩
+    refine ⟨⟨h1, h2, by simp [h3, h4]⟩, open3_start _ ⟨rfl, rfl⟩, ?_, ?_⟩
     · dsimp only; rw [h2]; exact fun _ hx => nomatch hx
     · dsimp only; rw [h4]; exact fun _ hx => nomatch hx
   intro _
@@ -216,14 +223,16 @@ theorem shp_scanRegex (n : Nat) :
   intro s2
   unfold H
   intro s a s' hp hm
-  split at hm
-  · rename_i u hu
+  revert hm
+  cases hu : s2.unit with
+  | none => intro hm; cases hm
+  | some u =>
+    intro hm
     change M.pure u s = _ at hm
     unfold M.pure at hm
     cases hm
     rw [hp.1] at hu
     exact hp.2.1 _ hu
-  · cases hm
 
 /-- **the raw tree the parser returns has the weak shape** -/
 theorem shp_parseFuel (n : Nat) (hn : E.pat.length < n) (t : RawTree) (h : parseFuel E n = .ok t) : shp t.root = true := by
